@@ -31,60 +31,60 @@ func init() {
 		"(*sync.Pool).Get":        iPoolGet,
 		"(*sync.Pool).Put":        iNop,
 		// ---- time
-		"time.Now":             iTimeNow,
-		"time.Sleep":           iTimeSleep,
-		"time.NewTimer":        iNewTimer,
-		"(*time.Timer).Stop":   iTimerStop,
-		"(*time.Timer).Reset":  iTimerReset,
-		"time.Since":           nil,
+		"time.Now":            iTimeNow,
+		"time.Sleep":          iTimeSleep,
+		"time.NewTimer":       iNewTimer,
+		"(*time.Timer).Stop":  iTimerStop,
+		"(*time.Timer).Reset": iTimerReset,
+		"time.Since":          nil,
 		// ---- os
 		"os.Getenv":    iGetenv,
 		"os.LookupEnv": iLookupEnv,
 		// ---- strings / bytes kernels
-		"strings.Index":                       iStringsIndex,
-		"internal/stringslite.Index":          iStringsIndex,
-		"strings.IndexByte":                   iIndexByteString,
-		"internal/stringslite.IndexByte":      iIndexByteString,
-		"internal/bytealg.IndexByteString":    iIndexByteString,
-		"internal/bytealg.IndexByte":          iIndexByteSlice,
-		"bytes.IndexByte":                     iIndexByteSlice,
-		"internal/bytealg.MakeNoZero":         iMakeNoZero,
-		"internal/bytealg.CountString":        iCountString,
-		"internal/bytealg.Count":              iCountSlice,
-		"internal/bytealg.Equal":              iBytesEqual,
-		"bytes.Equal":                         iBytesEqual,
-		"internal/abi.NoEscape":               iIdentity,
-		"internal/stringslite.Clone":          iIdentity,
-		"strings.Clone":                       iIdentity,
-		"internal/abi.Escape":                 iIdentity,
-		"(*strings.Builder).WriteString":      iBuilderWriteString,
-		"(*strings.Builder).WriteByte":        iBuilderWriteByte,
-		"(*strings.Builder).Write":            iBuilderWrite,
-		"(*strings.Builder).String":           iBuilderString,
-		"(*strings.Builder).Len":              iBuilderLen,
-		"(*strings.Builder).Grow":             iNop,
-		"(*strings.Builder).Reset":            iBuilderReset,
-		"strconv.Itoa":                        iItoa,
-		"fmt.Sprintf":                         iSprintf,
-		"fmt.Errorf":                          iErrorf,
-		"fmt.Sprint":                          nil,
-		"reflect.DeepEqual":                   iDeepEqual,
-		"math.IsNaN":                          iIsNaN,
-		"math.IsInf":                          iIsInf,
-		"math.Inf":                            iInf,
-		"math.Float64bits":                    nil,
-		"runtime.Gosched":                     iNop,
-		"runtime.KeepAlive":                   iNop,
-		"(*sync/atomic.Uint32).Load":          nil,
-		"sync/atomic.LoadUint32":              iAtomicLoad,
-		"sync/atomic.LoadInt32":               iAtomicLoad,
-		"sync/atomic.StoreUint32":             iAtomicStore,
-		"sync/atomic.StoreInt32":              iAtomicStore,
-		"sync/atomic.AddInt32":                iAtomicAdd,
-		"sync/atomic.AddUint32":               iAtomicAdd,
-		"sync/atomic.AddInt64":                iAtomicAdd,
-		"sync/atomic.CompareAndSwapInt32":     iAtomicCAS,
-		"sync/atomic.CompareAndSwapUint32":    iAtomicCAS,
+		"strings.Index":                    iStringsIndex,
+		"internal/stringslite.Index":       iStringsIndex,
+		"strings.IndexByte":                iIndexByteString,
+		"internal/stringslite.IndexByte":   iIndexByteString,
+		"internal/bytealg.IndexByteString": iIndexByteString,
+		"internal/bytealg.IndexByte":       iIndexByteSlice,
+		"bytes.IndexByte":                  iIndexByteSlice,
+		"internal/bytealg.MakeNoZero":      iMakeNoZero,
+		"internal/bytealg.CountString":     iCountString,
+		"internal/bytealg.Count":           iCountSlice,
+		"internal/bytealg.Equal":           iBytesEqual,
+		"bytes.Equal":                      iBytesEqual,
+		"internal/abi.NoEscape":            iIdentity,
+		"internal/stringslite.Clone":       iIdentity,
+		"strings.Clone":                    iIdentity,
+		"internal/abi.Escape":              iIdentity,
+		"(*strings.Builder).WriteString":   iBuilderWriteString,
+		"(*strings.Builder).WriteByte":     iBuilderWriteByte,
+		"(*strings.Builder).Write":         iBuilderWrite,
+		"(*strings.Builder).String":        iBuilderString,
+		"(*strings.Builder).Len":           iBuilderLen,
+		"(*strings.Builder).Grow":          iNop,
+		"(*strings.Builder).Reset":         iBuilderReset,
+		"strconv.Itoa":                     iItoa,
+		"fmt.Sprintf":                      iSprintf,
+		"fmt.Errorf":                       iErrorf,
+		"fmt.Sprint":                       nil,
+		"reflect.DeepEqual":                iDeepEqual,
+		"math.IsNaN":                       iIsNaN,
+		"math.IsInf":                       iIsInf,
+		"math.Inf":                         iInf,
+		"math.Float64bits":                 nil,
+		"runtime.Gosched":                  iNop,
+		"runtime.KeepAlive":                iNop,
+		"(*sync/atomic.Uint32).Load":       nil,
+		"sync/atomic.LoadUint32":           iAtomicLoad,
+		"sync/atomic.LoadInt32":            iAtomicLoad,
+		"sync/atomic.StoreUint32":          iAtomicStore,
+		"sync/atomic.StoreInt32":           iAtomicStore,
+		"sync/atomic.AddInt32":             iAtomicAdd,
+		"sync/atomic.AddUint32":            iAtomicAdd,
+		"sync/atomic.AddInt64":             iAtomicAdd,
+		"sync/atomic.CompareAndSwapInt32":  iAtomicCAS,
+		"sync/atomic.CompareAndSwapUint32": iAtomicCAS,
 		"(github.com/lucasb-eyer/go-colorful.Color).DistanceCIE76": iDistanceCIE76,
 	}
 	for k, v := range intrinsics {
@@ -1203,5 +1203,24 @@ func iDistanceCIE76(ex *Exec, st *State, fr *Frame, dst ssa.Value, args []Value)
 		ex.pushCall(st, fn, args, nil, nil)
 		return
 	}
-	ex.ret(fr, dst, mkUF("cie76", SFP, keys...))
+	// two facts about the library function are kept (both hold for every pair of colours,
+	// the real function being a Euclidean norm): d(x,x) = 0 and d is NaN or >= 0
+	same := true
+	for i := 0; i < len(keys)/2; i++ {
+		if keys[i] != keys[i+len(keys)/2] {
+			same = false
+		}
+	}
+	if same {
+		ex.ret(fr, dst, mkFP(0))
+		return
+	}
+	d := mkUF("cie76", SFP, keys...)
+	st.addPC(mkOr(mkFIsNaN(d), mkFCmp(OpFLe, mkFP(0), d)))
+	var eqs []*Term
+	for i := 0; i < len(keys)/2; i++ {
+		eqs = append(eqs, mkNot(mkEq(keys[i], keys[i+len(keys)/2])))
+	}
+	st.addPC(mkOr(append(eqs, mkFCmp(OpFEq, d, mkFP(0)))...))
+	ex.ret(fr, dst, d)
 }
